@@ -147,6 +147,9 @@ type Src struct {
 	// non-token words of skip-class text under a table or figure (raw noscript /
 	// iframe / textarea content): legitimate source words that cannot be placed
 	raw map[string]bool
+	// words of the visible source text that are made of several tokens: a word that continues across an inline
+	// element (zq1<b>zq2</b>) is one word in the source already
+	glued map[string]bool
 }
 
 type refWalker struct {
@@ -505,5 +508,45 @@ func refAbstract(root *html.Node, chains *interner) *Src {
 	w.walk(root, refCtx{})
 	w.src.NPara = w.paraID
 	w.src.NTbl = w.tblID
+	w.src.glued = gluedWords(root)
 	return w.src
+}
+
+var rxGluedWord = regexp.MustCompile(`^(?:zq\d+){2,}$`)
+
+// gluedWords reads the source as a reader joins it - text nodes run on across inline elements, anything else and a
+// line break end the word - and returns the words that consist of several tokens.
+func gluedWords(root *html.Node) map[string]bool {
+	out := map[string]bool{}
+	var sb strings.Builder
+	var rec func(n *html.Node)
+	rec = func(n *html.Node) {
+		switch n.Type {
+		case html.TextNode:
+			sb.WriteString(n.Data)
+			return
+		case html.ElementNode:
+			switch n.Data {
+			case "script", "style", "head", "template", "title":
+				return
+			}
+			if refHidden(n) {
+				return
+			}
+			if !lineTags[n.Data] {
+				sb.WriteString(" ")
+				defer sb.WriteString(" ")
+			}
+		}
+		for c := n.FirstChild; c != nil; c = c.NextSibling {
+			rec(c)
+		}
+	}
+	rec(root)
+	for _, f := range strings.Fields(sb.String()) {
+		if rxGluedWord.MatchString(f) {
+			out[f] = true
+		}
+	}
+	return out
 }
